@@ -15,6 +15,7 @@ pub fn gen_cfg() -> GenCfg {
     GenCfg {
         max_modules: 3,
         max_types: 6,
+        qualified_refs_pct: 40,
         ..GenCfg::default()
     }
 }
